@@ -12,3 +12,4 @@ import PK.Properties.C08
 #print axioms PK.C08_index_runout
 #print axioms PK.C08_index_runout_op
 #print axioms PK.C08_index_ante_op
+#print axioms PK.C08_getUpHand_total
